@@ -1,3 +1,4 @@
+//go:build verif
 // +build verif
 
 package consensus
@@ -17,6 +18,8 @@ func VerifCalcGasLimit(parent *types.Header) uint64 { return calcGasLimit(parent
 
 // VerifResetSigCache clears the process-wide signature cache (the harness switches node keys).
 func VerifResetSigCache() {
+	sigCache.Lock()
+	defer sigCache.Unlock()
 	sigCache.Hash = [32]byte{}
 	sigCache.Sig = nil
 }
